@@ -137,7 +137,11 @@ CLAIMED = {
         "left by earlier calls (for every input, file system and history); success leaves type none with text/file/line "
         "cleared; a failing read is a parse error with a message or (file not openable) an I/O error; a failing write an "
         "I/O error. Tied to /repo by every history of length 2 (quick) / 3 (thorough) over 14 calls, error fields compared "
-        "after every call with the model and, model-free, with the same call on a fresh object.",
+        "after every call with the model and, model-free, with the same call on a fresh object."
+        " Which error a failing read reports (C09_failing_read_fields, from ReadSyntax.v): within the nesting limit every read "
+        "succeeds with the denoted configuration, or fails with type parse and the message, file and line of the first semantic "
+        "offence, or with 'syntax error' (or the scanner's own text) at the file and line of the first token that cannot continue "
+        "a derivation.",
    note="The C++ ParseException/FileIOException carry the same fields through Config::handleError; that layer is "
         "not modelled (see C17).",
    technique="Coq proof (non-interference of the error state, by unfolding the reader/writer model) + exhaustive-bounded correspondence",
